@@ -145,6 +145,22 @@ def analyse(hist, rm: RM, outcome, cfg=None, want=None) -> Analysis:
                     A.add(V("C01", "feeder_open", consumer=sid, tau=tau, feeder=e.u,
                             feeder_tau=o.tau, conn=e.kind(), ci=e.ci, q=q))
                     c01_bad_steps.add((sid, st.idx))
+        # ---- C01 direction (a'): a feeder step that is already demanded (its cause is in the
+        # history) and due for this consumer step has not even begun
+        for e in rm.into[sid]:
+            if e.u == sid:
+                continue
+            done_taus = None
+            for t_u in dem[e.u]:
+                if e.arr(t_u) <= tau:
+                    if done_taus is None:
+                        done_taus = {x.tau for x in steps[e.u]}
+                    if t_u not in done_taus:
+                        A.add(V("C01", "feeder_step_pending", consumer=sid, tau=tau, feeder=e.u,
+                                feeder_tau=t_u, causes=[c[0] for c in dem[e.u][t_u]],
+                                conn=e.kind(), ci=e.ci, q=q))
+                        c01_bad_steps.add((sid, st.idx))
+                        break
         # ---- C01 direction (b): I am a feeder stepping too late
         for e in rm.outof[sid]:
             if e.v == sid or not steps[e.v]:
